@@ -5,7 +5,7 @@ import collections, hashlib, json, os, shutil
 import vflib, clirun
 from vflib import ROOT, CACHE
 
-CLS = ["known_C13_sql_prefix", "known_C13_invalid_enum_fill"]
+CLS = []
 
 RULE = ("projects = corpus witnesses (corpus/cli/c13_*.json) + evolutions of loader-accepted model sets from the shared generator, each under a drawn "
         "configuration (prefix ''/'app_', json/yaml/yml model and migration files, 8 filename patterns, default/custom directories, files in sub-directories); "
